@@ -21,6 +21,15 @@ func repoDir() string {
 	return "/repo"
 }
 
+// outDir is where evidence and replay files go: /verif, except for self-test runs against a
+// scratch tree (VERIF_OUT set together with VERIF_REPO), which must not touch the evidence.
+func outDir() string {
+	if d := os.Getenv("VERIF_OUT"); d != "" {
+		return d
+	}
+	return verifDir()
+}
+
 func verifDir() string {
 	if d := os.Getenv("VERIF_DIR"); d != "" {
 		return d
@@ -54,7 +63,7 @@ func overlayFiles() (map[string]string, error) {
 		return nil, err
 	}
 	// derived files: regenerated from the repository's current source on every run
-	dd := filepath.Join(verifDir(), "replays", ".derived")
+	dd := filepath.Join(outDir(), "replays", ".derived")
 	os.MkdirAll(dd, 0755)
 	for _, d := range derived {
 		b, err := os.ReadFile(filepath.Join(repoDir(), d.src))
